@@ -1177,7 +1177,7 @@ func runC07_15(c *core.Ctx) {
 func init() {
 	register(&core.Rule{ID: "C07.16", Prop: "C07", MinSites: 1,
 		Desc: "a listener that cannot be finished is closed, one that could not be opened is not: in every function that calls ln.open(), the failure edge of open never reaches ln.close() (the socket helpers already closed the descriptor they report), and once open succeeded no return can carry an error of a later step unless ln.close() ran – directly or in a deferred closure guarded by that error",
-		Run: runC07_16})
+		Run:  runC07_16})
 }
 
 func runC07_16(c *core.Ctx) {
